@@ -617,6 +617,10 @@ def gen_case(rng):
     case = {"kind": kind, "text": text, "envs": envs, "expect": expect, "conds": conds, "features": sorted(features)}
     if expect_opts is not None:
         case["expect_opts"] = expect_opts
+    if rng.random() < 0.3:
+        # hooks.config.Eups.defaultProduct and the addDefaultProduct argument of Table(...)
+        case["dflt"] = {"name": rng.choice(["toolchain", "toolchain", "base", ""]), "version": rng.choice([None, None, "1.0", ""]),
+                        "tag": rng.choice([None, None, "stable"]), "add": rng.choice([None, None, True, False])}
     if parts:
         case["parts"] = parts
     return case
@@ -631,7 +635,7 @@ def sub_case(case, parts, envs):
             "expect": [denote_table(items, v["flavor"], v["types"]) for v in envs], "conds": conds,
             "expect_opts": [denote_opts(items, v["flavor"], v["types"]) for v in envs],
             "features": sorted(table_features(items) | (set(case["features"]) & {"trailing_comment", "keyword_case"})),
-            "parts": parts}
+            "parts": parts, **({"dflt": case["dflt"]} if case.get("dflt") else {})}
 
 
 def shrink(case, clause):
@@ -757,7 +761,23 @@ def run_impl(case):
                 except Exception as ex:  # noqa
                     row.append({"err": type(ex).__name__})
             couts.append(row)
-    return {"table": outs, "conds": couts, "opts": opts, "chains": chains, "rewrite": rewritten}
+        # the default product: what _read appends for hooks.config.Eups.defaultProduct (first environment only)
+        dflt = None
+        if case.get("dflt") and case["envs"]:
+            d, v = case["dflt"], case["envs"][0]
+            saved = dict(hooks.config.Eups.defaultProduct)
+            try:
+                hooks.config.Eups.defaultProduct.update({"name": d["name"], "version": d["version"], "tag": d["tag"]})
+                t2 = Table(path, prod, **({} if d["add"] is None else {"addDefaultProduct": d["add"]}))
+                dflt = [canon_action(a) for a in t2.actions(v["flavor"], setupType=list(v["types"]))]
+            except RecursionError:
+                dflt = {"err": "RecursionError"}
+            except Exception as ex:  # noqa
+                dflt = {"err": type(ex).__name__}
+            finally:
+                hooks.config.Eups.defaultProduct.clear()
+                hooks.config.Eups.defaultProduct.update(saved)
+    return {"table": outs, "conds": couts, "opts": opts, "chains": chains, "rewrite": rewritten, "dflt": dflt}
 
 
 def run_impl_chunk(cases):
@@ -809,6 +829,14 @@ def model_requests(case):
         if var:
             r["variant"] = var
         reqs.append(r)
+    if case.get("dflt") and case["envs"]:
+        d, v = case["dflt"], case["envs"][0]
+        r = {"m": "c11", "op": "table", "text": case["text"], "flavor": v["flavor"], "types": v["types"], "pdir": PDIR}
+        if d["add"] is not False and d["name"]:
+            r["dflt"] = {"name": d["name"], "version": d["version"] or None, "tag": d["tag"] or None}
+        if var:
+            r["variant"] = var
+        reqs.append(r)
     return reqs
 
 
@@ -833,7 +861,8 @@ def model_out(case, answers):
         o = conv(a, "opts")
         opts.append(sorted(o) if isinstance(o, list) else o)
     return {"table": table, "conds": conds, "opts": opts, "chains": conv(answers[k + n], "chains"),
-            "rewrite": conv(answers[k + n + 1], "lines")}
+            "rewrite": conv(answers[k + n + 1], "lines"),
+            "dflt": conv(answers[k + n + 2], "actions") if case.get("dflt") and case["envs"] else None}
 
 
 def unmodelled(x):
@@ -868,6 +897,15 @@ def oracle(case, impl):
         if want is not None and got != want:
             yield ("declare_options", None, i, "for %s the declareOptions commands of the table declare %s, getDeclareOptions returns %s"
                    % (case["envs"][i], json.dumps(want), json.dumps(got)))
+    if case.get("dflt") and case["expect"] is not None and case["envs"]:
+        d = case["dflt"]
+        want = list(case["expect"][0])
+        if d["add"] is not False and d["name"]:
+            want.append({"cmd": "setupRequired", "args": [d["name"]] + ([d["version"]] if d["version"] else [])
+                         + (["--tag", d["tag"]] if d["tag"] else []), "extra": {"optional": True, "silent": True}})
+        if impl["dflt"] != want:
+            yield ("default_product", None, 0, "with the default product %s the table denotes %s, eups derives %s"
+                   % (json.dumps(d), json.dumps(want), json.dumps(impl["dflt"])))
     if case["expect"] is None:
         return
     for i, (got, want) in enumerate(zip(impl["table"], case["expect"])):
@@ -894,7 +932,7 @@ def corpus_cases():
 
 
 def public(case):
-    return {k: case[k] for k in ("kind", "text", "envs", "expect", "expect_opts", "conds", "features", "parts", "shrunk_from_items")
+    return {k: case[k] for k in ("kind", "text", "envs", "expect", "expect_opts", "dflt", "conds", "features", "parts", "shrunk_from_items")
             if k in case}
 
 
@@ -939,7 +977,12 @@ def evaluate(ctx, cases):
                   "conds": [[b if not unmodelled(b) else a for a, b in zip(ra, rb)] for ra, rb in zip(io_["conds"], mo["conds"])],
                   "opts": [b if not unmodelled(b) else a for a, b in zip(io_["opts"], mo["opts"])],
                   "chains": mo["chains"] if not unmodelled(mo["chains"]) else io_["chains"],
-                  "rewrite": mo["rewrite"]}
+                  "rewrite": mo["rewrite"],
+                  "dflt": mo["dflt"] if not unmodelled(mo["dflt"]) else io_["dflt"]}
+        if c.get("dflt"):
+            d = c["dflt"]
+            ctx.hist("default_product=%s%s%s, add=%s" % ("name" if d["name"] else "none", "+version" if d["version"] else "",
+                                                         "+tag" if d["tag"] else "", d["add"]))
         for o in io_["opts"]:
             ctx.hist("declare_options=" + (o["err"] if isinstance(o, dict) else "none" if not o else "some"))
         if mo_cmp["table"] != io_["table"]:
@@ -952,6 +995,8 @@ def evaluate(ctx, cases):
             ctx.disagree("parsed_chains", inp, io_, mo)
         elif mo_cmp["opts"] != io_["opts"]:
             ctx.disagree("declare_options", inp, io_, mo)
+        elif mo_cmp["dflt"] != io_["dflt"]:
+            ctx.disagree("actions_with_default_product", inp, io_, mo)
         fails = list(oracle(c, io_))
         if fails and c.get("parts") and ctx.histogram.get("shrunk", 0) < MAX_SHRINKS:
             # report a reduced input: fewest items / one environment that still fail the same clause
@@ -1231,7 +1276,8 @@ def evaluate_setuptype(ctx, cases):
                          % (json.dumps(c["expect_deptypes"]), json.dumps(io_["deptypes"])))
 
 
-FLOORS_PRESENT = ("feature=else_if", "feature=else", "feature=empty_branch", "feature=quoted_arg", "feature=legacy",
+FLOORS_PRESENT = ("default_product=name, add=None", "default_product=name+version+tag, add=None", "default_product=name, add=False",
+                  "default_product=none, add=None", "feature=else_if", "feature=else", "feature=empty_branch", "feature=quoted_arg", "feature=legacy",
                   "feature=cond_depth=2", "types=0", "types=2", "feature=first_and_last_quoted",
                   "feature=declare_options", "declare_options=some", "feature=branches>=8")
 # argument shapes where the order of the tokeniser's steps is observable: a floor for each
@@ -1313,7 +1359,7 @@ def run(ctx):
         while done < n:
             yield [gen_setuptype_case(ctx.rng) for _ in range(min(k, n - done))]
             done += k
-    classes = [chunks(ec2, 100), chunks(ea2, 200), stream(97000, 1500), st_stream(6000, 400)]
+    classes = [chunks(ec2, 100), chunks(ea2, 200), stream(57000, 1500), st_stream(3000, 400)]
     while classes and not ctx.out_of_time():
         for it in list(classes):
             if ctx.out_of_time():
